@@ -1,6 +1,7 @@
 package vc
 
 import (
+	"os"
 	"fmt"
 	"go/constant"
 	"go/token"
@@ -1105,7 +1106,11 @@ func (c *SpecCtx) recPredCall(p *Pred, args []Val) Val {
 				n.vars[pn] = Val{S: name, T: args[i].T, Bltn: args[i].Bltn}
 				rd.sorts = append(rd.sorts, x.sortOf(args[i]))
 			}
-			n.Bool(p.Body)
+			if p.Ret == "" {
+				n.Bool(p.Body)
+			} else {
+				n.Eval(p.Body)
+			}
 		}()
 		for k := range rd.collect {
 			rd.heapKeys = append(rd.heapKeys, k)
@@ -1117,10 +1122,10 @@ func (c *SpecCtx) recPredCall(p *Pred, args []Val) Val {
 			sorts = append(sorts, x.te.HeapSort(x.heapTypes[k]))
 		}
 		sorts = append(sorts, rd.sorts...)
-		x.S.DeclareFun(rd.uf, sorts, "Bool")
+		x.S.DeclareFun(rd.uf, sorts, x.recSort(p))
 	}
 	if rd.building {
-		return specVal("true", "Bool")
+		return x.recVal(p, map[string]string{"": "true", "int": "0", "float": x.te.Zero(types.Typ[types.Float64])}[p.Ret])
 	}
 	var hargs []string
 	for _, k := range rd.heapKeys {
@@ -1136,6 +1141,9 @@ func (c *SpecCtx) recPredCall(p *Pred, args []Val) Val {
 		pargs = append(pargs, a.S)
 	}
 	app := App(rd.uf, append(hargs, pargs...)...)
+	if os.Getenv("GOVC_DEBUG_REC") != "" {
+		fmt.Fprintf(os.Stderr, "rec %s binders=%d sym=%v unfolded=%v\n", app, c.binders, c.st.symHeaps != nil, x.unfolded[app])
+	}
 	if c.binders == 0 && c.st.symHeaps == nil {
 		// ground occurrence: add the one-level unfolding as a definitional instance
 		key := app
@@ -1153,11 +1161,36 @@ func (c *SpecCtx) recPredCall(p *Pred, args []Val) Val {
 			for i, pn := range p.Params {
 				n.vars[pn] = args[i]
 			}
-			body := n.Bool(p.Body)
+			var body string
+			if p.Ret == "" {
+				body = n.Bool(p.Body)
+			} else {
+				body = n.Eval(p.Body).S
+			}
 			x.pendingFacts = append(x.pendingFacts, Eq(app, body))
 		}
 	}
-	return specVal(app, "Bool")
+	return x.recVal(p, app)
+}
+
+func (x *Exec) recSort(p *Pred) string {
+	switch p.Ret {
+	case "float":
+		return x.te.FloatSort()
+	case "int":
+		return "Int"
+	}
+	return "Bool"
+}
+
+func (x *Exec) recVal(p *Pred, term string) Val {
+	switch p.Ret {
+	case "float":
+		return Val{S: term, T: types.Typ[types.Float64]}
+	case "int":
+		return specVal(term, "Int")
+	}
+	return specVal(term, "Bool")
 }
 
 func symHeapName(k string) string { return "HQ_" + sanitize(k) }
